@@ -163,3 +163,9 @@ write_tuple!(A, B, C, D, E);
 write_tuple!(A, B, C, D, E, F);
 write_tuple!(A, B, C, D, E, F, G);
 write_tuple!(A, B, C, D, E, F, G, H);
+
+#[cfg(feature = "verif")]
+impl Writer<'_> {
+    /// Size of the internal buffer (verification harness only).
+    pub const VERIF_BUF_SIZE: usize = Writer::BUF_SIZE;
+}
